@@ -1,0 +1,44 @@
+//go:build verif
+
+package tx_pool
+
+import (
+	"github.com/kardiachain/go-kardia/lib/common"
+	"github.com/kardiachain/go-kardia/types"
+)
+
+// VerifView is VerifSnapshot without the re-heap of the price list: Reheap writes
+// to the price list, which is only safe when nothing else uses the pool. VerifView
+// only reads (lists, hash index, locals, pending nonces) under one read lock, so
+// it can be called while other goroutines submit transactions.
+func (pool *TxPool) VerifView() *VerifIndex {
+	pool.mu.RLock()
+	defer pool.mu.RUnlock()
+	ix := &VerifIndex{
+		Pending:      map[common.Address][]common.Hash{},
+		Queue:        map[common.Address][]common.Hash{},
+		All:          map[common.Hash]bool{},
+		PendingNonce: map[common.Address]uint64{},
+		Locals:       map[common.Address]bool{},
+	}
+	for addr, l := range pool.pending {
+		for _, tx := range l.txs.items {
+			ix.Pending[addr] = append(ix.Pending[addr], tx.Hash())
+		}
+		ix.PendingNonce[addr] = pool.pendingNonces.get(addr)
+	}
+	for addr, l := range pool.queue {
+		for _, tx := range l.txs.items {
+			ix.Queue[addr] = append(ix.Queue[addr], tx.Hash())
+		}
+	}
+	pool.all.Range(func(hash common.Hash, tx *types.Transaction, local bool) bool {
+		ix.All[hash] = local
+		return true
+	}, true, true)
+	ix.AllRemote = pool.all.CountRemote()
+	for a := range pool.locals.accounts {
+		ix.Locals[a] = true
+	}
+	return ix
+}
